@@ -1808,6 +1808,9 @@ func TestWirePlayerDiesInsidePlay(t *testing.T) {
 		evid.Assume("wire die-inside-PLAY: /proc/self/fd is not readable here; UDP sockets are not counted")
 	}
 	for _, kind := range []string{"tcp", "udp", "ws"} {
+		if only := os.Getenv("VERIF_DIE_KINDS"); only != "" && !strings.Contains(","+only+",", ","+kind+",") {
+			continue // development aid
+		}
 		for _, point := range []string{"join.registered", "join.snapshotted"} {
 			for _, active := range []bool{false, true} {
 				evid.Eval(1)
